@@ -205,6 +205,12 @@ class Ctx:
 
 def classify(ctx):
     """known findings -> KNOWN-FINDING lines; everything else -> VIOLATION lines."""
+    calib = ctx.cfg.get("calibration")
+    if calib:
+        bad = [f for f in ctx.failures if getattr(P, calib)(f)]
+        if bad:
+            raise ToolError("calibration of the environment model failed (%d probes disagree with the model, e.g. %s): "
+                            "this is a statement about the sandbox's kernel, not about the code under test" % (len(bad), json.dumps(bad[0])[:600]))
     findings = [f for f in lib.load_findings() if f.get("property") == ctx.pid and f.get("status") == "open"]
     known_hit = {}
     violations = []
